@@ -419,6 +419,8 @@ Definition check_render_tree (i : node * list (list hcell) * str) (o : res str) 
 Definition check_quoteattr (i : str) (o : str) : bool := str_eqb (quoteattr i) o.
 Definition check_html_escape (i : str) (o : str) : bool := str_eqb (html_escape i) o.
 Definition check_markup_escape (i : str) (o : str) : bool := str_eqb (markup_escape i) o.
+(** the texts Jinja emitted for a list of interpolated strings (site pages) *)
+Definition check_markup_list (i : list str) (o : list str) : bool := list_eqb str_eqb (map markup_escape i) o.
 Definition check_t (i : str * option str * list (str * str)) (o : str) : bool :=
   let '(tag, body, attrs) := i in str_eqb (t tag body attrs) o.
 Definition check_render_quantity (i : quantity) (o : res str) : bool := check_str (render_quantity i) o.
